@@ -79,7 +79,17 @@ thread_local! {
     pub static CASE: RefCell<Option<Arc<CaseCtx>>> = const { RefCell::new(None) };
 }
 
+thread_local! {
+    static LCTX: RefCell<Option<CapabilityContext<VOp, Event>>> = const { RefCell::new(None) };
+}
+
+/// the capability context of the core that is running `update` right now (None under direct hosts)
+pub fn legacy_ctx() -> Option<CapabilityContext<VOp, Event>> {
+    LCTX.with(|c| c.borrow().clone())
+}
+
 pub fn install_case(table: Table) -> Arc<CaseCtx> {
+    LCTX.with(|c| *c.borrow_mut() = None);
     crate::dsl::reset_tokens();
     let ctx = Arc::new(CaseCtx {
         table,
@@ -122,6 +132,7 @@ impl crux_core::App for VApp {
     fn update(&self, event: Event, model: &mut Model, caps: &Capabilities) -> Command<Effect, Event> {
         let n = self.ctx.in_update.fetch_add(1, Ordering::SeqCst) + 1;
         self.ctx.max_in_update.fetch_max(n, Ordering::SeqCst);
+        LCTX.with(|c| *c.borrow_mut() = Some(caps.op.context.clone()));
         model.log.push(event.clone());
         let inst = u32::try_from(model.log.len()).unwrap();
         let prog = match &event {
